@@ -29,7 +29,17 @@ class Inf:
 
 
 INF = Inf()
+class OpaqueVal:
+    """a library value nothing is known about (numpy.mgrid grids, argument specifications): indexing it, taking an attribute of it
+    or calling it gives an opaque value again; it can be stored, but any other use is unsupported"""
+
+    def __repr__(self):
+        return "OPAQUE"
+
+
+OPAQUE = OpaqueVal()
 CONSTS["numpy.inf"] = INF
+CONSTS["numpy.mgrid"] = OPAQUE
 CONSTS["numpy.pi"] = None   # filled lazily (uninterpreted positive constant)
 
 
@@ -260,8 +270,21 @@ def _print(eng, node, *a, **k):
     return None
 
 
+@reg("inspect.getfullargspec")
+def _getfullargspec(eng, node, f):
+    return OPAQUE
+
+
 @reg("builtins.isinstance")
 def _isinstance(eng, node, x, cls):
+    if isinstance(x, Opt):
+        # an optional value: None or a value of the underlying type
+        names_ = [getattr(c, "name", None) for c in (cls if isinstance(cls, tuple) else (cls,))]
+        if names_ == ["NoneType"]:
+            return x.none
+        if eng.choose(x.none):
+            return "NoneType" in names_
+        return _isinstance(eng, node, x.val, cls)
     names = [c.dotted.split(".")[-1] if isinstance(c, ModRef) else getattr(c, "name", None) for c in (cls if isinstance(cls, tuple) else (cls,))]
     kind = pytype_name(x)
     if kind is None:
@@ -272,6 +295,8 @@ def _isinstance(eng, node, x, cls):
 
 
 def pytype_name(x):
+    if isinstance(x, OpaqueVal):
+        return "object"
     if isinstance(x, (bool, z3.BoolRef)):
         return "bool"
     if isinstance(x, int) or (isinstance(x, z3.ArithRef) and x.is_int()):
@@ -355,8 +380,20 @@ def _map(eng, node, f, x):
     return CList([eng.call(f, [e], {}, node) for e in eng.concrete_or_fail(x)])
 
 
+ROUND = {}
+
+
 @reg("builtins.round")
 def _round(eng, node, x, nd=None):
+    """round(x, n) of a symbolic real, n a literal: a function of x that is a multiple of 10**-n within half a unit of x (ties: either side)"""
+    if isinstance(nd, int) and 0 <= nd <= 9 and isinstance(x, z3.ArithRef):
+        f = ROUND.get(nd)
+        if f is None:
+            f = ROUND[nd] = z3.Function(f"round{nd}", z3.RealSort(), z3.RealSort())
+        r = f(R(x))
+        scale = 10 ** nd
+        eng.facts.add(z3.And(z3.IsInt(r * scale), (R(x) - r) * (2 * scale) <= 1, (r - R(x)) * (2 * scale) <= 1))
+        return r
     raise Unsupported("round")
 
 
